@@ -170,6 +170,22 @@ def evaluate(case):
             # and against the reference
             _expect(lhs, getattr(Rr, inv)(Rr.gp(da, db)), "involution-sign", inv, f"{inv}(a*b)")
         nontrivial = len(ka) >= 2 and len(kb) >= 2
+    # the same operation on SYMBOLIC operands (symbols a1, a2, a12 ...), the result evaluated by a keyword call
+    if case["mode"] == "frac" and ref.d <= 4 and 1 <= len(ka) <= 8 and (case["b"] is None or 1 <= len(case["b"]["keys"]) <= 8) and kind != "laws":
+        if kind in ("add", "sub"):
+            fn, opnds, expd = (lambda a, b: getattr(a, kind)(b)), [("a", ka, va), ("b", kb, vb)], getattr(Rr, kind)(da, db)
+        elif kind == "neg":
+            fn, opnds, expd = (lambda a: -a), [("a", ka, va)], Rr.neg(da)
+        elif kind in SIGN_NEG:
+            fn, opnds, expd = (lambda a: getattr(a, kind)()), [("a", ka, va)], getattr(Rr, kind)(da)
+        else:
+            gs_ = tuple(case["grades"])
+            fn, opnds, expd = (lambda a: a.grade(gs_)), [("a", ka, va)], {k: v for k, v in da.items() if pc(k) in gs_}
+        sc = kd.to_dict(_call(lambda: kd.sym_call(alg, fn, opnds), "blade-wise", kind), op=kind)
+        ok, why = kd.elem_equal({k: kd.plain(v) for k, v in sc.items()}, expd, 1e-9)
+        if not ok:
+            raise Violation("blade-wise", kind, f"symbolic operands (keys {ka}" + (f" / {case['b']['keys']}" if case["b"] else "") +
+                            f"), {kind}, then a keyword call with the values: {why}", observed=kd.show(sc), expected=kd.show(expd))
     labels.append("order:noncanonical" if noncanon else "order:canonical")
     key = [cfg["sig"], cfg.get("start"), cfg.get("basis"), kind, ka, case["b"]["keys"] if case["b"] else None,
            case.get("grades"), case.get("form"), case["mode"]]
